@@ -276,8 +276,8 @@ class FortranAST:
                     while scope is not None and scope not in enclosing:
                         enclosing.append(scope)
                         scope = scope.parent
-                    for child in include_ast.inc_scope.children:
-                        if child in enclosing:
+                    for child in list(include_ast.inc_scope.children):
+                        if child in enclosing or include_ast.inc_scope in enclosing:
                             continue
                         added_entities.append(child)
                         if parent_scope is not None:
